@@ -40,6 +40,33 @@ const AE: &[(&str, &str)] = &[
     ("gzip-lower-mixed-case", "IDENTITY;q=1.0, GZIP;q=0.5"),
     ("gzip-deflate-br-upper", "GZIP, DEFLATE, BR"),
     ("gzip-spaces", " gzip ; q=1.0 , identity ; q=0.5 "),
+    // every branch of the qvalue grammar (two digits, four digits, no digits, q=1.000)
+    ("gzip-q2digits", "gzip;q=0.05, identity;q=0.04"),
+    ("gzip-q2digits-lower", "gzip;q=0.04, identity;q=0.05"),
+    ("gzip-q4digits", "gzip;q=0.0001"),
+    ("gzip-q1000", "gzip;q=1.000, identity;q=0."),
+    ("identity-q0-star", "identity;q=0, *;q=0.5"),
+    // opaque bytes (obs-text) are legal in a field value
+    ("non-utf8", "gzip, \u{0}"),
+];
+
+const OTHER: &[(&str, &str)] = &[
+    ("accept", "text/event-stream"),
+    ("accept", "text/html,application/xhtml+xml;q=0.9,*/*;q=0.8"),
+    ("te", "trailers, gzip"),
+    ("connection", "close"),
+    ("connection", "keep-alive, upgrade"),
+    ("upgrade", "websocket"),
+    ("cache-control", "no-transform"),
+    ("range", "bytes=0-99"),
+    ("user-agent", "Mozilla/4.08 [en] (Win98; I ;Nav)"),
+    ("via", "1.0 proxy"),
+    ("content-encoding", "gzip"),
+    ("accept-charset", "utf-8"),
+    ("x-requested-with", "XMLHttpRequest"),
+    ("content-length", "0"),
+    ("if-none-match", "*"),
+    ("expect", "100-continue"),
 ];
 
 struct Cfg {
@@ -52,6 +79,10 @@ struct Cfg {
     ae_second_line: Option<usize>,
     ae_present: bool,
     method: &'static str,
+    /// Other request fields an application sees next to Accept-Encoding (bit mask over OTHER)
+    /// and the request's HTTP version; neither may change what the coding headers promise.
+    other: u32,
+    version: u32,
     as_parts: bool,
     payload: u32,
     seed: u64,
@@ -104,6 +135,12 @@ fn gen_cfg(t: &mut Tape, focus: &str) -> Cfg {
             "C17" | "C15" => ["GET", "HEAD", "POST", "GET", "PUT"][t.draw(5) as usize],
             _ => "GET",
         },
+        other: if matches!(focus, "C17" | "C15" | "C09" | "C08") && t.chance(1, 3) {
+            (1 << t.draw(OTHER.len() as u32)) | if t.chance(1, 2) { 1 << t.draw(OTHER.len() as u32) } else { 0 }
+        } else {
+            0
+        },
+        version: if t.chance(1, 4) { 1 + t.draw(3) } else { 0 },
         as_parts: t.chance(1, 2),
         payload: t.draw(4),
         seed: t.draw(u32::MAX) as u64,
@@ -125,14 +162,31 @@ fn payload_byte(kind: u32, seed: u64, p: u64) -> u8 {
     }
 }
 
+fn ae_value(i: usize) -> http::HeaderValue {
+    if AE[i].0 == "non-utf8" {
+        return http::HeaderValue::from_bytes(b"gzip, \xff\xfe").unwrap();
+    }
+    http::HeaderValue::from_str(AE[i].1).unwrap()
+}
+
 fn build(cfg: &Cfg) -> (http::Response<SimBody>, Option<W>, bool) {
-    let mut b = http::Request::builder().method(cfg.method).uri("/s");
+    let mut b = http::Request::builder().method(cfg.method).uri("/s").version(match cfg.version {
+        1 => http::Version::HTTP_10,
+        2 => http::Version::HTTP_2,
+        3 => http::Version::HTTP_3,
+        _ => http::Version::HTTP_11,
+    });
+    for (i, (k, v)) in OTHER.iter().enumerate() {
+        if cfg.other & (1 << i) != 0 {
+            b = b.header(*k, *v);
+        }
+    }
     if cfg.ae_present {
-        b = b.header("accept-encoding", AE[cfg.ae].1);
+        b = b.header("accept-encoding", ae_value(cfg.ae));
         // Some proxies split one field into several lines; should_gzip (the reference) looks at
         // the first line only.
         if let Some(second) = cfg.ae_second_line {
-            b = b.header("accept-encoding", AE[second].1);
+            b = b.header("accept-encoding", ae_value(second));
         }
     }
     let req = b.body(()).unwrap();
@@ -187,6 +241,8 @@ struct Sim {
     empty_frames: u64,
     ops: Vec<String>,
     panic: Option<String>,
+    /// The waker handed to the last poll was woken before that poll returned.
+    self_woken: bool,
 }
 
 impl Sim {
@@ -230,9 +286,12 @@ impl Sim {
             }
         }
         let body = self.body.as_mut()?;
-        let (_flag, waker) = new_waker();
+        let (flag, waker) = new_waker();
         let mut cx = Context::from_waker(&waker);
         let r = catch(|| body.as_mut().poll_frame(&mut cx));
+        // A body may answer Pending after waking the task itself (a cooperative yield): that is
+        // "poll me again", not "nothing is available".
+        self.self_woken = flag.woken.load(std::sync::atomic::Ordering::SeqCst);
         let after = self.log.terminal.is_some();
         let step = match r {
             Err(p) => {
@@ -279,9 +338,11 @@ impl Sim {
     }
 
     fn poll_until_pending(&mut self) {
+        let mut yields = 0;
         for _ in 0..2_000_000 {
             match self.poll() {
-                Some(Step::Data(_)) => continue,
+                Some(Step::Data(_)) => yields = 0,
+                Some(Step::Pending) if self.self_woken && yields < 10_000 => yields += 1,
                 _ => break,
             }
         }
@@ -318,6 +379,44 @@ impl Sim {
                         _ => None,
                     };
                 }
+            }
+            Err(_) => {
+                self.writer_dead = true;
+                self.unflushed = None;
+            }
+        }
+        Some(r)
+    }
+
+    /// One `write_vectored` call over slices of the given sizes; Ok(k) counts bytes of the
+    /// concatenation, as std documents.
+    fn write_vectored(&mut self, sizes: &[usize]) -> Option<Result<usize, String>> {
+        let n: usize = sizes.iter().sum();
+        let buf = self.gen_bytes(n);
+        let mut slices = Vec::new();
+        let mut o = 0;
+        for &l in sizes {
+            slices.push(std::io::IoSlice::new(&buf[o..o + l]));
+            o += l;
+        }
+        let w = self.w.as_mut()?;
+        let r = match catch(|| w.write_vectored(&slices)) {
+            Ok(r) => r.map_err(|e| e.to_string()),
+            Err(p) => {
+                self.panic = Some(format!("write_vectored panicked: {p}"));
+                return None;
+            }
+        };
+        match &r {
+            Ok(k) => {
+                let k = (*k).min(n);
+                self.accepted.extend_from_slice(&buf[..k]);
+                self.since_flush += k;
+                if self.body_gone {
+                    self.accepted_after_body_drop += k;
+                    self.ok_after_drop_unflushed += k;
+                }
+                self.unflushed = None;
             }
             Err(_) => {
                 self.writer_dead = true;
@@ -369,7 +468,7 @@ pub fn run(ctx: &mut Ctx) -> Result<RunOut, Violation> {
     // then, half of the time, a complete earlier response on this thread with its own drawn
     // configuration: state carried from an earlier call is part of the history.
     {
-        let warm = Cfg { chunk: 16, level: 6, earlier_levels: Vec::new(), earlier_chunks: Vec::new(), ae: 9, ae_second_line: None, ae_present: true, method: "GET", as_parts: false, payload: 0, seed: 0 };
+        let warm = Cfg { chunk: 16, level: 6, earlier_levels: Vec::new(), earlier_chunks: Vec::new(), ae: 9, ae_second_line: None, ae_present: true, method: "GET", other: 0, version: 0, as_parts: false, payload: 0, seed: 0 };
         let _ = catch(|| drop(build(&warm)));
     }
     if ctx.tape.chance(1, 2) {
@@ -390,8 +489,10 @@ pub fn run(ctx: &mut Ctx) -> Result<RunOut, Violation> {
     let (resp, w, expect_gzip) = match built {
         Ok(v) => v,
         Err(p) => {
-            return if focus == "C17" {
-                violation("C17", "build-panic", p)
+            // Every generated configuration is inside the properties' stated domain (chunk size
+            // >= 1, level 0..=10): no body at all is a failure of what C08/C09/C17 promise.
+            return if matches!(focus, "C17" | "C08" | "C09") {
+                violation(focus_static(focus), "build-panic", format!("streaming_body(..).build() panicked for chunk={} level={}: {p}", cfg.chunk, cfg.level))
             } else {
                 Ok(RunOut { sig: 0, nontrivial: false })
             }
@@ -427,6 +528,7 @@ pub fn run(ctx: &mut Ctx) -> Result<RunOut, Violation> {
         empty_frames: 0,
         ops: Vec::new(),
         panic: None,
+        self_woken: false,
         cfg,
     };
     if focus == "C11" && ctx.tape.chance(1, 2) {
@@ -434,12 +536,16 @@ pub fn run(ctx: &mut Ctx) -> Result<RunOut, Violation> {
     }
 
     let cfg_desc = format!(
-        "chunk={} level={}{} accept-encoding={} method={} repr={} payload={}",
+        "chunk={} level={}{} accept-encoding={} method={}{} repr={} payload={}",
         sim.cfg.chunk,
         sim.cfg.level,
         if sim.cfg.earlier_levels.is_empty() && sim.cfg.earlier_chunks.is_empty() { String::new() } else { format!(" (after earlier builder calls levels {:?} chunks {:?})", sim.cfg.earlier_levels, sim.cfg.earlier_chunks) },
         if sim.cfg.ae_present { format!("{}{}", AE[sim.cfg.ae].0, sim.cfg.ae_second_line.map(|l| format!(" + second line {}", AE[l].0)).unwrap_or_default()) } else { "absent".to_string() },
         sim.cfg.method,
+        {
+            let o: Vec<String> = OTHER.iter().enumerate().filter(|(i, _)| sim.cfg.other & (1 << i) != 0).map(|(_, (k, v))| format!("{k}: {v}")).collect();
+            format!("{}{}", if o.is_empty() { String::new() } else { format!(" +[{}]", o.join(" | ")) }, ["", " HTTP/1.0", " HTTP/2", " HTTP/3"][sim.cfg.version as usize])
+        },
         if sim.cfg.as_parts { "Parts" } else { "Request" },
         sim.cfg.payload
     );
@@ -462,7 +568,7 @@ pub fn run(ctx: &mut Ctx) -> Result<RunOut, Violation> {
             };
         }
         // Same headers as the GET twin, body delivers nothing.
-        let twin = Cfg { method: "GET", ae_second_line: sim.cfg.ae_second_line, earlier_levels: sim.cfg.earlier_levels.clone(), earlier_chunks: sim.cfg.earlier_chunks.clone(), chunk: sim.cfg.chunk, level: sim.cfg.level, ae: sim.cfg.ae, ae_present: sim.cfg.ae_present, as_parts: sim.cfg.as_parts, payload: 0, seed: 0 };
+        let twin = Cfg { method: "GET", other: sim.cfg.other, version: sim.cfg.version, ae_second_line: sim.cfg.ae_second_line, earlier_levels: sim.cfg.earlier_levels.clone(), earlier_chunks: sim.cfg.earlier_chunks.clone(), chunk: sim.cfg.chunk, level: sim.cfg.level, ae: sim.cfg.ae, ae_present: sim.cfg.ae_present, as_parts: sim.cfg.as_parts, payload: 0, seed: 0 };
         let (gresp, _gw, _) = build(&twin);
         let hs = |r: &http::HeaderMap| {
             let mut v: Vec<(String, Vec<u8>)> = r.iter().map(|(k, v)| (k.as_str().to_string(), v.as_bytes().to_vec())).collect();
@@ -498,7 +604,19 @@ pub fn run(ctx: &mut Ctx) -> Result<RunOut, Violation> {
     // ---- The history.
     let want_abort = matches!(focus, "C11" | "C20" | "C12") && ctx.tape.chance(if focus == "C11" { 2 } else { 1 }, 4);
     let want_body_drop = focus == "C11" && !want_abort && ctx.tape.chance(2, 3);
-    let n_ops = 1 + ctx.tape.draw(if crate::core::deep() { 30 } else { 12 });
+    // Swarm: half of the runs use a restricted mix - a random subset of the operation kinds
+    // and one class of write sizes - and are longer; patterns such as "many tiny flushed writes
+    // and then the chunk boundary" are common there and all but absent from a uniform mix.
+    // Groups: bit 0 write, 1 write_all / write_vectored, 2 flush, 3 poll, 4 drain.
+    let swarm = ctx.tape.chance(1, 2);
+    let (mut op_mask, size_class) = if swarm { (1 + ctx.tape.draw(31), ctx.tape.draw(4)) } else { (31, 0) };
+    if op_mask & 3 == 0 {
+        op_mask |= 1;
+    }
+    if swarm {
+        ctx.stats.bump("b_swarm_runs_(restricted_operation_mix)");
+    }
+    let n_ops = 1 + ctx.tape.draw(if crate::core::deep() { 30 } else if swarm { 24 } else { 12 });
     let fault_at = ctx.tape.draw(n_ops + 1);
     let mut flush_checks = 0u64;
     let mut kinds: Vec<&'static str> = Vec::new();
@@ -536,7 +654,19 @@ pub fn run(ctx: &mut Ctx) -> Result<RunOut, Violation> {
             break;
         }
         let t = &mut ctx.tape;
-        let op = t.draw(8);
+        let group = |op: u32| [0u32, 0, 0, 1, 2, 2, 3, 4][op as usize];
+        let mut op = t.draw(8);
+        if op_mask != 31 {
+            for _ in 0..6 {
+                if op_mask & (1 << group(op)) != 0 {
+                    break;
+                }
+                op = t.draw(8);
+            }
+            if op_mask & (1 << group(op)) == 0 {
+                op = if op_mask & 1 != 0 { 0 } else { 3 };
+            }
+        }
         sig = mix(sig, op as u64);
         match op {
             0 | 1 | 2 => {
@@ -554,6 +684,12 @@ pub fn run(ctx: &mut Ctx) -> Result<RunOut, Violation> {
                     4 => cap + 1,
                     _ => t.draw((3 * cap).min(200_000) as u32 + 1) as usize,
                 } };
+                let n = match size_class {
+                    1 => 1 + t.draw((cap / 4).clamp(1, 50_000) as u32) as usize,
+                    2 => (cap + t.draw(3) as usize).saturating_sub(1).max(1),
+                    3 => 1 + t.draw((cap / 2).clamp(1, 100_000) as u32) as usize,
+                    _ => n,
+                };
                 kinds.push(["w0", "w1", "wc", "wc-1", "wc+1", "w*"][nk as usize]);
                 let live = !sim.aborted && !sim.writer_dead && !sim.body_gone;
                 let after_drop = sim.body_gone;
@@ -588,6 +724,41 @@ pub fn run(ctx: &mut Ctx) -> Result<RunOut, Violation> {
                 } else {
                     1 + t.draw((2 * sim.cfg.chunk).min(100_000) as u32 + 1) as usize
                 };
+                if t.chance(1, 4) {
+                    // Write::write_vectored over two or three slices (std's default hands the
+                    // first non-empty one to write(); an override has to get the count right).
+                    kinds.push("wvec");
+                    let cap = sim.cfg.chunk;
+                    let k = 2 + t.draw(2) as usize;
+                    let sizes: Vec<usize> = (0..k)
+                        .map(|_| match t.draw(4) {
+                            0 => t.draw(3) as usize,
+                            1 => 1 + t.draw(64) as usize,
+                            2 => 1 + t.draw((3 * cap).min(100_000) as u32) as usize,
+                            _ => 20_000 + t.draw(100_000) as usize,
+                        })
+                        .collect();
+                    let total: usize = sizes.iter().sum();
+                    let live = !sim.aborted && !sim.writer_dead && !sim.body_gone;
+                    let dead_before = sim.writer_dead || sim.aborted;
+                    let Some(r) = sim.write_vectored(&sizes) else { break };
+                    sim.ops.push(format!("write_vectored({sizes:?}) -> {r:?}"));
+                    ctx.ev("write_vectored", total as u64, r.as_ref().map(|k| *k as u64).unwrap_or(u64::MAX));
+                    ctx.stats.bump("b_write_vectored_calls");
+                    match focus {
+                        "C08" | "C09" if live && total > 0 => match &r {
+                            Ok(0) => return violation(focus_static(focus), "write-accepted-nothing", format!("{cfg_desc}: write_vectored of {total} bytes to a live body returned Ok(0); ops {:?}", sim.ops)),
+                            Err(e) => return violation(focus_static(focus), "write-failed-on-live-body", format!("{cfg_desc}: write_vectored to a live body failed: {e}; ops {:?}", sim.ops)),
+                            Ok(k) if *k > total => return violation(focus_static(focus), "write-accepted-too-much", format!("{cfg_desc}: write_vectored({sizes:?}) returned {k}")),
+                            _ => {}
+                        },
+                        "C11" if dead_before && r.is_ok() && total > 0 => {
+                            return violation("C11", "write-after-abort-or-failure-succeeded", format!("{cfg_desc}: ops {:?}", sim.ops));
+                        }
+                        _ => {}
+                    }
+                    continue;
+                }
                 kinds.push("wall");
                 if t.chance(1, 2) {
                     // The writer's own `write_all` (std's default unless the crate overrides it).
@@ -912,7 +1083,7 @@ fn run_release(ctx: &mut Ctx) -> Result<RunOut, Violation> {
     let fill_total: usize = if chunk < 64 { 4096 + t.draw(8192) as usize } else if gzip { 100_000 + t.draw(60_000) as usize } else { 300_000 + t.draw(200_000) as usize };
     let step = [chunk, 1, 3 * chunk + 1, 1024][t.draw(4) as usize].max(1);
     let seed = t.draw(u32::MAX) as u64;
-    let cfg = Cfg { chunk, level, earlier_levels: Vec::new(), earlier_chunks: Vec::new(), ae: if gzip { 1 } else { 0 }, ae_second_line: None, ae_present: gzip, method: "GET", as_parts: false, payload: 0, seed };
+    let cfg = Cfg { other: 0, version: 0, chunk, level, earlier_levels: Vec::new(), earlier_chunks: Vec::new(), ae: if gzip { 1 } else { 0 }, ae_second_line: None, ae_present: gzip, method: "GET", as_parts: false, payload: 0, seed };
     let desc = format!("release scenario chunk={chunk} gzip={gzip} level={level} fill={fill_total} write-size={step} polls-before-drop={consume_some}");
     ctx.ev("release", chunk as u64, fill_total as u64);
     // Everything the harness needs is allocated before the measured window.
@@ -1018,7 +1189,7 @@ fn run_big_backlog(ctx: &mut Ctx) -> Result<RunOut, Violation> {
     let total = threshold + 2 * chunk + t.draw(4096) as usize;
     let end_with_abort = focus == "C11";
     let seed = t.draw(u32::MAX) as u64;
-    let cfg = Cfg { chunk, level: 0, earlier_levels: Vec::new(), earlier_chunks: Vec::new(), ae: 0, ae_second_line: None, ae_present: false, method: "GET", as_parts: false, payload: 1, seed };
+    let cfg = Cfg { other: 0, version: 0, chunk, level: 0, earlier_levels: Vec::new(), earlier_chunks: Vec::new(), ae: 0, ae_second_line: None, ae_present: false, method: "GET", as_parts: false, payload: 1, seed };
     let desc = format!("backlog scenario: chunk={chunk}, {total} bytes written in {piece}-byte pieces before the first poll (threshold from the source dictionary: {threshold}), then {}", if end_with_abort { "abort" } else { "drop" });
     ctx.ev("backlog", total as u64, chunk as u64);
     let (resp, w, _) = build(&cfg);
@@ -1048,8 +1219,9 @@ fn run_big_backlog(ctx: &mut Ctx) -> Result<RunOut, Violation> {
             w.abort(SimError::Injected(11));
         }
         drop(w);
-        let (_f, waker) = new_waker();
+        let (wflag, waker) = new_waker();
         let mut cx = Context::from_waker(&waker);
+        let mut yields = 0;
         let mut got = 0usize;
         let mut sum_out = 0u64;
         let mut clean = false;
@@ -1076,6 +1248,7 @@ fn run_big_backlog(ctx: &mut Ctx) -> Result<RunOut, Violation> {
                     clean = true;
                     break;
                 }
+                Poll::Pending if crate::a_drain::took_wake(&wflag) && yields < 1_000_000 => yields += 1,
                 Poll::Pending => break,
             }
         }
